@@ -47,6 +47,7 @@ pub fn run(a: &Args) -> Report {
         let sig2 = pgen::gen_sig(&mut rng, &cfg2);
         let mut g1 = Gen::new(&sig1, &cfg1);
         let mut p: Vec<String> = sig1.decls(&mut rng, true).iter().map(|c| c.to_string()).collect();
+        p.extend(g1.seed(&mut rng).iter().map(|c| c.to_string()));
         let np = 4 + rng.below(10);
         p.extend(cmds_over(&mut rng, &sig1, &cfg1, np, &mut g1).iter().map(|c| c.to_string()));
         // Q: declarations of sig2 + commands on both signatures (+ nested push/pop, failing commands)
